@@ -105,8 +105,11 @@ pub fn random_keys(r: &mut StdRng, n: usize, alpha: usize, maxlen: usize) -> Vec
 
 /// Keys sharing prefixes and suffixes: stems x endings.
 pub fn affix_keys(r: &mut StdRng, stems: usize, endings: usize) -> Vec<Vec<u8>> {
-    let st = random_keys(r, stems, 6, 5);
-    let en = random_keys(r, endings, 6, 4);
+    let alpha = *pick(r, &[2usize, 3, 6]);
+    let sl = *pick(r, &[1usize, 2, 5]);
+    let el = *pick(r, &[1usize, 2, 4]);
+    let st = random_keys(r, stems, 6, sl);
+    let en = random_keys(r, endings, alpha, el);
     let mut keys = vec![];
     for s in &st {
         for e in &en {
